@@ -220,7 +220,7 @@ package encode
 //@   ensures[C08] len(table) * fs > 2147483647 ==> result1 != nil && blen(b) == L
 //@   ensures[C08] forall i :: 0 <= i && i < L ==> bytesOf(bobj(b))[i] == old(bytesOf(bobj(b)))[i]
 //@   loop 1 modifies uint8 at p
-//@   loop 1 invariant 0 - 1 <= rangeindex && rangeindex < len(table) && len(p) == size && cap(p) >= size && lo(p) == L && obj(p) == bobj(b) && obj(p) != obj(table)
+//@   loop 1 invariant 0 - 1 <= rangeindex && rangeindex < len(table) && len(p) == size && cap(p) >= size && lo(p) == L && obj(p) == bobj(b)
 //@   loop 1 invariant (big ==> fieldSize == 6 && off == (rangeindex + 1) * 6 && size == len(table) * 6) && (!big ==> fieldSize == 3 && off == (rangeindex + 1) * 3 && size == len(table) * 3)
 //@   loop 1 invariant !big && (forall k :: 0 <= k && k < len(table) ==> table[k].Tag <= 255 && table[k].Offset <= 65535) ==> (forall k :: 0 <= k && k <= rangeindex ==> smallTag(mem(p), L, k) == table[k].Tag && smallOff(mem(p), L, k) == table[k].Offset)
 //@   loop 1 invariant big ==> (forall k :: 0 <= k && k <= rangeindex ==> bigTag(mem(p), L, k) == table[k].Tag && bigOff(mem(p), L, k) == table[k].Offset)
@@ -240,7 +240,7 @@ package encode
 //@   ensures[C08] len(table) * es > 2147483647 ==> result1 != nil && blen(b) == L
 //@   ensures[C08] forall i :: 0 <= i && i < L ==> bytesOf(bobj(b))[i] == old(bytesOf(bobj(b)))[i]
 //@   loop 1 modifies uint8 at p
-//@   loop 1 invariant 0 - 1 <= rangeindex && rangeindex < len(table) && len(p) == size && cap(p) >= size && lo(p) == L && obj(p) == bobj(b) && obj(p) != obj(table)
+//@   loop 1 invariant 0 - 1 <= rangeindex && rangeindex < len(table) && len(p) == size && cap(p) >= size && lo(p) == L && obj(p) == bobj(b)
 //@   loop 1 invariant (big ==> elemSize == 4 && off == (rangeindex + 1) * 4 && size == len(table) * 4) && (!big ==> elemSize == 2 && off == (rangeindex + 1) * 2 && size == len(table) * 2)
 //@   loop 1 invariant !big && (forall k :: 0 <= k && k < len(table) ==> table[k].Offset <= 65535) ==> (forall k :: 0 <= k && k <= rangeindex ==> listSmallEnd(mem(p), L, k) == table[k].Offset)
 //@   loop 1 invariant big ==> (forall k :: 0 <= k && k <= rangeindex ==> listBigEnd(mem(p), L, k) == table[k].Offset)
